@@ -163,7 +163,7 @@ fn build_sender(rng: &mut StdRng, lay: &Layout, base: &str) -> TestNode {
         }
     }
     for m in 0..lay.n_members {
-        let a: SocketAddr = if m % 3 == 0 { format!("[2001:db8::{:x}]:{}", m + 1, 7100 + m).parse().unwrap() } else { addr(7100 + m as u16) };
+        let a: SocketAddr = if m % 3 == 0 { format!("[2001:db8::{:x}]:{}", m + 1, 7100 + m).parse().unwrap() } else if m % 7 == 1 { format!("[::ffff:10.0.{}.1]:{}", m % 200, 7100 + m).parse().unwrap() } else { addr(7100 + m as u16) };
         let id = mk_wid(&format!("member-{m}"), m as u64 % 3, a);
         let mut kvs = vec![];
         let mut ver = 0u64;
@@ -462,7 +462,10 @@ fn rand_string(rng: &mut StdRng, len: usize, base: &str) -> String {
 }
 fn rand_wid(rng: &mut StdRng, base: &str, small: bool) -> WId {
     let l = if small { rng.random_range(0..10) } else { len_class(rng) };
-    let a: SocketAddr = if rng.random_bool(0.4) {
+    const SPECIAL: [&str; 10] = ["[::ffff:10.0.0.1]:10001", "[::ffff:255.255.255.255]:65535", "[::1]:1", "[::]:0", "0.0.0.0:0", "255.255.255.255:65535", "[::1.2.3.4]:80", "[fe80::1]:7280", "[64:ff9b::192.0.2.33]:9", "127.0.0.1:7280"];
+    let a: SocketAddr = if rng.random_bool(0.25) {
+        SPECIAL[rng.random_range(0..SPECIAL.len())].parse().unwrap()
+    } else if rng.random_bool(0.4) {
         let segs: [u16; 8] = rng.random();
         SocketAddr::new(std::net::IpAddr::V6(std::net::Ipv6Addr::new(segs[0], segs[1], segs[2], segs[3], segs[4], segs[5], segs[6], segs[7])), rng.random())
     } else {
